@@ -1,7 +1,6 @@
 /-
   C11: the guard `JobsOK` of the validity theorems follows from guards on the inputs — distinct
-  nodes, pointers unique per side, and no two left individuals selecting the same right
-  individual through their unique identifiers.
+  nodes and pointers unique per side.
 -/
 import Gedcom.Lemmas.Match
 namespace Gedcom.Match
@@ -10,20 +9,7 @@ open Gedcom
 /-- pointers are unique on each side -/
 def PtrsOK (L R : List Person) : Prop := (L.map (·.ptr)).Nodup ∧ (R.map (·.ptr)).Nodup
 
-/-- no two left individuals select the same right individual through their unique identifiers -/
-def UniqueTargetsOK (L R : List Person) : Prop := ((L.filterMap (uniqueTarget R)).map (·.id)).Nodup
-
-/-- no right individual is a unique-identifier candidate of two left individuals: whatever the
-    map iteration order, two left individuals never select the same right individual -/
-def CandidatesDisjoint (L R : List Person) : Prop :=
-  ∀ a ∈ L, ∀ a' ∈ L, ∀ b ∈ uniqueCands R a, b ∈ uniqueCands R a' → a.id = a'.id
-
-instance (L R : List Person) : Decidable (CandidatesDisjoint L R) := by
-  unfold CandidatesDisjoint; exact inferInstance
-
 instance (L R : List Person) : Decidable (PtrsOK L R) := by unfold PtrsOK; exact inferInstance
-instance (L R : List Person) : Decidable (UniqueTargetsOK L R) := by
-  unfold UniqueTargetsOK; exact inferInstance
 
 theorem inj_of_nodup_map {α β : Type} (f : α → β) {l : List α} (h : (l.map f).Nodup) {a b : α}
     (ha : a ∈ l) (hb : b ∈ l) (e : f a = f b) : a = b := by
@@ -48,41 +34,56 @@ theorem uniqueJobs_sent_mono (ch : Person → Option Person) (as : List Person) 
     split
     · exact ih s
     · rename_i b hb
-      have := ih ⟨a.ptr :: s.a, b.ptr :: s.b⟩
-      exact ⟨fun x hx => this.1 x (by simp [hx]), fun x hx => this.2 x (by simp [hx])⟩
+      split
+      · exact ih s
+      · have := ih ⟨a.ptr :: s.a, b.ptr :: s.b⟩
+        exact ⟨fun x hx => this.1 x (by simp [hx]), fun x hx => this.2 x (by simp [hx])⟩
+
+/-- what a unique-identifier job is, relative to the sent sets the phase started with and the
+    ones it ends with -/
+def UidJob (R as : List Person) (s s' : Sent) (j : Job) : Prop :=
+  j.certain = true ∧ (∃ a ∈ as, a.id = j.l ∧ a.ptr ∈ s'.a) ∧
+    (∃ b ∈ R, b.id = j.r ∧ b.ptr ∈ s'.b ∧ b.ptr ∉ s.b)
 
 theorem uniqueJobs_spec (R : List Person) (ch : Person → Option Person) (hch : ChoiceOK R ch)
-    (as : List Person) (s : Sent) :
+    (hR : (R.map (·.id)).Nodup) (as : List Person) (s : Sent) :
     ((uniqueJobs ch as s).1.map (·.l)).Sublist (as.map (·.id)) ∧
-    (uniqueJobs ch as s).1.map (·.r) = (as.filterMap ch).map (·.id) ∧
-    (∀ j ∈ (uniqueJobs ch as s).1, j.certain = true ∧
-      (∃ a ∈ as, a.id = j.l ∧ a.ptr ∈ (uniqueJobs ch as s).2.a) ∧
-      (∃ b ∈ R, b.id = j.r ∧ b.ptr ∈ (uniqueJobs ch as s).2.b)) := by
+    ((uniqueJobs ch as s).1.map (·.r)).Nodup ∧
+    (∀ j ∈ (uniqueJobs ch as s).1, UidJob R as s (uniqueJobs ch as s).2 j) := by
   induction as generalizing s with
   | nil => simp [uniqueJobs]
   | cons a as ih =>
+    have lift : ∀ s0 s' j, UidJob R as s0 s' j → (∀ x, x ∈ s.b → x ∈ s0.b) → UidJob R (a :: as) s s' j := by
+      rintro s0 s' j ⟨hc, ⟨a', ha', e1, e2⟩, ⟨b', hb', e3, e4, e5⟩⟩ hsub
+      exact ⟨hc, ⟨a', by simp [ha'], e1, e2⟩, ⟨b', hb', e3, e4, fun hm => e5 (hsub _ hm)⟩⟩
     simp only [uniqueJobs]
     split
-    · rename_i hnone
-      have := ih s
-      refine ⟨List.Sublist.cons _ this.1, ?_, ?_⟩
-      · simp [hnone, this.2.1]
-      · intro j hj
-        obtain ⟨hc, ⟨a', ha', e1, e2⟩, hb⟩ := this.2.2 j hj
-        exact ⟨hc, ⟨a', by simp [ha'], e1, e2⟩, hb⟩
+    · have := ih s
+      exact ⟨List.Sublist.cons _ this.1, this.2.1, fun j hj => lift s _ j (this.2.2 j hj) (fun _ h => h)⟩
     · rename_i b hb
-      have := ih ⟨a.ptr :: s.a, b.ptr :: s.b⟩
-      have hm := uniqueJobs_sent_mono ch as ⟨a.ptr :: s.a, b.ptr :: s.b⟩
-      refine ⟨?_, ?_, ?_⟩
-      · simp only [List.map_cons]; exact List.Sublist.cons_cons _ this.1
-      · simp [hb, this.2.1]
-      · intro j hj
-        simp only [List.mem_cons] at hj
-        rcases hj with e | hj
-        · subst e
-          refine ⟨rfl, ⟨a, by simp, rfl, hm.1 _ (by simp)⟩, ⟨b, (hch a b hb).1, rfl, hm.2 _ (by simp)⟩⟩
-        · obtain ⟨hc, ⟨a', ha', e1, e2⟩, hb'⟩ := this.2.2 j hj
-          exact ⟨hc, ⟨a', by simp [ha'], e1, e2⟩, hb'⟩
+      split
+      · have := ih s
+        exact ⟨List.Sublist.cons _ this.1, this.2.1, fun j hj => lift s _ j (this.2.2 j hj) (fun _ h => h)⟩
+      · rename_i hsb
+        have := ih ⟨a.ptr :: s.a, b.ptr :: s.b⟩
+        have hm := uniqueJobs_sent_mono ch as ⟨a.ptr :: s.a, b.ptr :: s.b⟩
+        have hbR := (hch a b hb).1
+        refine ⟨?_, ?_, ?_⟩
+        · simp only [List.map_cons]; exact List.Sublist.cons_cons _ this.1
+        · simp only [List.map_cons, List.nodup_cons]
+          refine ⟨?_, this.2.1⟩
+          intro hmem
+          obtain ⟨j, hj, ej⟩ := List.mem_map.mp hmem
+          obtain ⟨_, _, ⟨b', hb', e3, _, e5⟩⟩ := this.2.2 j hj
+          have : b' = b := inj_of_nodup_map (·.id) hR hb' hbR (by rw [e3, ej])
+          rw [this] at e5
+          exact e5 (by simp)
+        · intro j hj
+          simp only [List.mem_cons] at hj
+          rcases hj with e | hj
+          · subst e
+            exact ⟨rfl, ⟨a, by simp, rfl, hm.1 _ (by simp)⟩, ⟨b, hbR, rfl, hm.2 _ (by simp), by simpa using hsb⟩⟩
+          · exact lift _ _ j (this.2.2 j hj) (fun x hx => by simp [hx])
 
 /-! ### createPointerJobs -/
 
@@ -168,11 +169,11 @@ theorem matrixJobs_uncertain (L R : List Person) (s : Sent) (scoreF : Nat → Na
   obtain ⟨a, _, b, _, e⟩ := hj
   rw [← e]
 
-/-- for every resolution `ch` of the unique-identifier choices that pairs no right individual
-    twice, and whatever sent sets the options value starts with -/
+/-- for every resolution `ch` of the unique-identifier choices and whatever sent sets the options
+    value starts with: the certain jobs pair nobody twice -/
 theorem jobsOK_from (L R : List Person) (scoreT scoreF : Nat → Nat → Rat) (prefer : Rat)
     (ch : Person → Option Person) (hch : ChoiceOK R ch) (s0 : Sent)
-    (hids : IdsOK L R) (hp : PtrsOK L R) (hu : ((L.filterMap ch).map (·.id)).Nodup) :
+    (hids : IdsOK L R) (hp : PtrsOK L R) :
     JobsOK L R (jobsFrom ch s0 L R scoreT scoreF prefer) := by
   have hLid : (L.map (·.id)).Nodup := by
     unfold IdsOK at hids; rw [List.nodup_append] at hids; exact hids.1
@@ -187,7 +188,7 @@ theorem jobsOK_from (L R : List Person) (scoreT scoreF : Nat → Nat → Rat) (p
       rw [this]; simp
     · have hR' : R.isEmpty = false := by simpa using hR
       rw [jobsFrom_eq ch s0 L R scoreT scoreF prefer hR']
-      have hU := uniqueJobs_spec R ch hch L s0
+      have hU := uniqueJobs_spec R ch hch hRid L s0
       have hP := pointerJobs_spec R scoreT prefer L (uniqueJobs ch L s0).2 hRid hp.1
       have hM := matrixJobs_uncertain L R (pointerJobs R scoreT prefer L (uniqueJobs ch L s0).2).2 scoreF
       -- the certain jobs are exactly the unique-identifier jobs followed by the pointer jobs
@@ -203,7 +204,7 @@ theorem jobsOK_from (L R : List Person) (scoreT scoreF : Nat → Nat → Rat) (p
       rw [hf]
       simp only [List.map_append, List.nodup_append]
       refine ⟨⟨List.Nodup.sublist hU.1 hLid, List.Nodup.sublist hP.1 hLid, ?_⟩,
-        ⟨by rw [hU.2.1]; exact hu, hP.2.1, ?_⟩⟩
+        ⟨hU.2.1, hP.2.1, ?_⟩⟩
       · -- a left individual with a unique-identifier job is marked as sent: no pointer job for it
         intro x hx y hy e
         obtain ⟨j, hj, ej⟩ := List.mem_map.mp hx
@@ -217,51 +218,10 @@ theorem jobsOK_from (L R : List Person) (scoreT scoreF : Nat → Nat → Rat) (p
         intro x hx y hy e
         obtain ⟨j, hj, ej⟩ := List.mem_map.mp hx
         obtain ⟨j', hj', ej'⟩ := List.mem_map.mp hy
-        obtain ⟨_, _, ⟨b, hb, e1, e2⟩⟩ := hU.2.2 j hj
+        obtain ⟨_, _, ⟨b, hb, e1, e2, _⟩⟩ := hU.2.2 j hj
         obtain ⟨_, a', _, _, _, b', hb', e3, _, e5⟩ := hP.2.2 j' hj'
         have : b = b' := inj_of_nodup_map (·.id) hRid hb hb' (by rw [e1, e3, ej, ej', e])
         rw [this] at e2
         exact e5 e2
-
-theorem jobsOK_of_guards' (L R : List Person) (scoreT scoreF : Nat → Nat → Rat) (prefer : Rat)
-    (hids : IdsOK L R) (hp : PtrsOK L R) (hu : UniqueTargetsOK L R) :
-    JobsOK L R (jobs L R scoreT scoreF prefer) :=
-  jobsOK_from L R scoreT scoreF prefer _ (uniqueTarget_admissible R).choiceOK _ hids hp hu
-
-/-- with disjoint candidate sets every admissible resolution pairs no right individual twice -/
-theorem choice_injective (L R : List Person) (ch : Person → Option Person) (hadm : Admissible R ch)
-    (hids : IdsOK L R) (hd : CandidatesDisjoint L R) : ((L.filterMap ch).map (·.id)).Nodup := by
-  have hLid : (L.map (·.id)).Nodup := by
-    unfold IdsOK at hids; rw [List.nodup_append] at hids; exact hids.1
-  have hRid : (R.map (·.id)).Nodup := by
-    unfold IdsOK at hids; rw [List.nodup_append] at hids; exact hids.2.1
-  have hcand : ∀ a b, ch a = some b → b ∈ uniqueCands R a := by
-    intro a b hab; have := hadm a; rw [hab] at this; exact this
-  -- generalise over a suffix of L
-  suffices h : ∀ as : List Person, (∀ a ∈ as, a ∈ L) → (as.map (·.id)).Nodup →
-      ((as.filterMap ch).map (·.id)).Nodup from h L (fun a ha => ha) hLid
-  intro as
-  induction as with
-  | nil => intro _ _; simp
-  | cons a as ih =>
-    intro hsub hnd
-    simp only [List.map_cons, List.nodup_cons] at hnd
-    have hrest := ih (fun x hx => hsub x (by simp [hx])) hnd.2
-    cases hca : ch a with
-    | none => simpa [List.filterMap_cons, hca] using hrest
-    | some b =>
-      simp only [List.filterMap_cons, hca, List.map_cons, List.nodup_cons]
-      refine ⟨?_, hrest⟩
-      intro hm
-      obtain ⟨b', hb', e⟩ := List.mem_map.mp hm
-      obtain ⟨a', ha', hca'⟩ := List.mem_filterMap.mp hb'
-      have hbR := (cand_spec (hcand a b hca)).1
-      have hb'R := (cand_spec (hcand a' b' hca')).1
-      have : b' = b := inj_of_nodup_map (·.id) hRid hb'R hbR e
-      rw [this] at hca'
-      have hid := hd a (hsub a (by simp)) a' (hsub a' (by simp [ha'])) b (hcand a b hca) (hcand a' b hca')
-      apply hnd.1
-      rw [hid]
-      exact List.mem_map.mpr ⟨a', ha', rfl⟩
 
 end Gedcom.Match
